@@ -1029,7 +1029,7 @@ func (r *Runner) execArg(op *OpSpec, st *Step) *Rec {
 	default:
 		if res.Cls == "panic" {
 			r.violation("C13", sig+"/panic", fmt.Sprintf("%s(%s argument) panicked: %s", entry, op.Arg, pt), st)
-		} else if res.Cls == "ok" || n != 0 {
+		} else if res.Cls == "ok" {
 			r.violation("C13", sig+"/accepted", fmt.Sprintf("%s(%s argument) returned n=%d err=%v", entry, op.Arg, n, err), st)
 		}
 		if entry == "enc" {
@@ -1068,8 +1068,6 @@ func (r *Runner) c13check(op *OpSpec, st *Step, entry string, res *Rec, a *outAr
 			r.violation("C13", sig+"/panic", fmt.Sprintf("%s on rejected definition %s (%s) panicked: %s", entry, op.Type, class, res.Err), st)
 		case res.Cls == "ok":
 			r.violation("C13", sig+"/accepted", fmt.Sprintf("%s on rejected definition %s (%s) succeeded (n=%d)", entry, op.Type, class, res.N), st)
-		case res.N != 0:
-			r.violation("C13", sig+"/nonzero-n", fmt.Sprintf("%s on rejected definition %s (%s) returned n=%d with its error", entry, op.Type, class, res.N), st)
 		}
 		if a != nil {
 			if msg := a.intact(0); msg != "" {
@@ -1095,12 +1093,32 @@ func (r *Runner) c13check(op *OpSpec, st *Step, entry string, res *Rec, a *outAr
 
 // ---------------------------------------------------------------- helpers shared by oracles
 
-func isRequiredErr(err error) (bool, string) {
+// invalidDataErr: the error unwraps to a protocol exception of type INVALID_DATA (the wording is not ours to police).
+func invalidDataErr(err error) (bool, string) {
 	var pe *thrift.ProtocolException
-	if errors.As(err, &pe) && pe.TypeId() == thrift.INVALID_DATA && strings.Contains(pe.Error(), "required field") {
+	if errors.As(err, &pe) && pe.TypeId() == thrift.INVALID_DATA {
 		return true, pe.Error()
 	}
 	return false, ""
+}
+
+// namesField reports whether text mentions the Go field name as a whole word (F6 must not match F64).
+func namesField(text, name string) bool {
+	for i := 0; i+len(name) <= len(text); i++ {
+		if text[i:i+len(name)] != name {
+			continue
+		}
+		before := i == 0 || !isWordByte(text[i-1])
+		after := i+len(name) == len(text) || !isWordByte(text[i+len(name)])
+		if before && after {
+			return true
+		}
+	}
+	return false
+}
+
+func isWordByte(c byte) bool {
+	return c == '_' || c >= '0' && c <= '9' || c >= 'a' && c <= 'z' || c >= 'A' && c <= 'Z'
 }
 
 func ptrOf(b []byte) uintptr {
